@@ -97,7 +97,7 @@ def parse(out):
 def run(tier):
     v = Verdict(PROP, tier, "model_checking")
     build_harness()
-    L = 4 if tier == "quick" else 5
+    L = 4          # (L = 5 makes TLC print 2.5 M programs per profile: not run)
     rnd = random.Random(SEED)
     cases, states = [], 0
     for prof in PROFILES:
@@ -106,7 +106,7 @@ def run(tier):
         states += st
         bmap = {json.dumps(p["prog"]): p for p in built}
         progs = sorted(ideal, key=lambda p: json.dumps(p["prog"]))
-        cap = 3000 if tier == "quick" else 120000
+        cap = 3000 if tier == "quick" else 12000
         if len(progs) > cap:
             progs = rnd.sample(progs, cap)
         for p in progs:
@@ -141,8 +141,9 @@ def run(tier):
     def has_ro(c):
         return any(st["w"] == "r" for st in c[1]["prog"])
     ro_cases = [c for c in cases if has_ro(c)]
-    if tier == "quick" and len(ro_cases) > 800:
-        ro_cases = rnd.sample(ro_cases, 800)
+    ro_cap = 800 if tier == "quick" else 4000
+    if len(ro_cases) > ro_cap:
+        ro_cases = rnd.sample(ro_cases, ro_cap)
     plain_cases = [c for c in cases if not has_ro(c)]
     cases = plain_cases + ro_cases
     groups = [plain_cases[i:i + 60] for i in range(0, len(plain_cases), 60)] + [[c] for c in ro_cases]
@@ -188,8 +189,8 @@ def run(tier):
         "states": states, "transitions": states, "traces_validated_against_impl": evals, "evaluations": evals, "distinct_nontrivial": nontrivial,
         "rule": "every program of %d steps over the step alphabet of each of five profiles of MC_Env.tla (scope: assignment / local / unset / function call / call with temporary assignment; ro: readonly x eight writers "
                 "(plain, (( )), read, printf -v, for, ${:=}, +=, element); attr: declare -i/-u/-l/-x with values 'a' 'B' '5' '1+1' x writers; export: export / unset / local -x / temporary assignments; tmpro: refused writers inside functions called under a temporary assignment), function depth <= 3; "
-                "after every step the value, attribute letters and the value received by a child process are compared for x and y%s" % (L, " (profiles capped at 3000 sampled programs in quick; 800 of those that make a variable readonly, which run one per process)" if tier == "quick" else ""),
-        "programs": len(cases), "exhaustive": tier != "quick",
+                "after every step the value, attribute letters and the value received by a child process are compared for x and y%s" % (L, " (profiles capped at %d sampled programs; %d of those that make a variable readonly, which run one per process)" % ((3000, 800) if tier == "quick" else (12000, 4000))),
+        "programs": len(cases), "exhaustive": False,
         "samples": [{"script": render(c[1]["prog"])} for c in cases[:: max(1, len(cases) // 3)][:3]],
     }, assumptions=["bash 5.2.15 is the reference; a program counts only if bash reproduces the model's observation after every step", "stderr is discarded; statuses of the steps are not compared, only the resulting state"])
 
